@@ -51,12 +51,21 @@ def _strip_decl(data):
     return re.sub(rb'^\s*<\?xml[^>]*\?>\s*', b'', data).rstrip(b'\n')
 
 
-def signature_template(ref_id, alg='sha1', embed_cert=None, sig_id=None):
+XPATH_FILTER = 'http://www.w3.org/TR/1999/REC-xpath-19991116'
+
+
+def signature_template(ref_id, alg='sha1', embed_cert=None, sig_id=None, xpath=None):
+    """xpath: an XPath filter transform (with that expression) precedes the usual two"""
     sm, dm = SIGALG[alg]
+    flt = ('<ds:Transform Algorithm="%s"><ds:XPath xmlns:saml="%s">%s</ds:XPath></ds:Transform>' % (XPATH_FILTER, NS_SAML, xpath)) if xpath else ''
     ki = ''
     if embed_cert:
         ki = ('<ds:KeyInfo><ds:X509Data><ds:X509Certificate>%s</ds:X509Certificate></ds:X509Data></ds:KeyInfo>'
               % env.cert_b64(embed_cert))
+    return _sigtmpl(ref_id, sig_id, sm, dm, ki).replace('<ds:Transforms>', '<ds:Transforms>' + flt, 1)
+
+
+def _sigtmpl(ref_id, sig_id, sm, dm, ki):
     return ('<ds:Signature xmlns:ds="%s"%s><ds:SignedInfo>'
             '<ds:CanonicalizationMethod Algorithm="http://www.w3.org/2001/10/xml-exc-c14n#"/>'
             '<ds:SignatureMethod Algorithm="%s"/>'
